@@ -234,11 +234,11 @@ end
 local function tailfixed(a, b)
   local t = {1, 2, 3, 4, 5, 6, 7, 8}
   local x, y, z = t[1] + t[2], {t[3], t[4]}, "pad" .. t[5]
-  return true, (function(p, q) local u, v, w = {p, q, 1, 2, 3}, p, q return probe(3, u[1], u[2]) end)(a, b)
+  return true, (function(p, q) local u, v, w = {p, q, 1, 2, 3, 4, 5, 6, 7, 8, 9, 10, 11, 12}, p, q return probe(3, u[1], u[2]) end)(a, b)
 end
 local function tailvararg(...)
   local x, y, z = {...}, select("#", ...), "pad"
-  return true, (function(...) local u = {1, 2, 3, ...} return probe(select("#", ...) + 1, ...) end)(...)
+  return true, (function(...) local u = {1, 2, 3, 4, 5, 6, 7, 8, 9, 10, 11, 12, ...} return probe(select("#", ...) + 1, ...) end)(...)
 end
 return {fixed = fixed, vararg = vararg, nested = nested, inco = inco, grown = grown, tailfixed = tailfixed, tailvararg = tailvararg}
 `
